@@ -283,7 +283,7 @@ fn format_number_js(n: f64) -> String {
             "-Infinity".to_string()
         }
     } else {
-        format!("{}", n)
+        crate::value::number_to_string(n)
     }
 }
 
